@@ -163,6 +163,13 @@ def join_case(draw, tier="quick", max_rows=None):
     kinds, lk, rk = draw(key_columns(nl, nr))
     L = draw(side(nl, lk, "L"))
     R = draw(side(nr, rk, "R"))
+    if len(kinds) >= 2 and draw(st.integers(0, 7)) == 0:
+        # one column used for two components of the key on one side (left_on=['a', 'a'], right_on=['x', 'y']): the key tuple
+        # simply repeats that cell
+        sd, ks = (L, lk) if draw(st.booleans()) else (R, rk)
+        if sd["specs"][0][0] in ("name", "own") and kinds[0] == kinds[1]:
+            sd["specs"][1] = sd["specs"][0]
+            sd["repeat"] = True
     as_list = draw(st.booleans())
     return {"kinds": kinds, "L": L, "R": R, "as_list": as_list, "nl": nl, "nr": nr}
 
